@@ -34,7 +34,7 @@ def run_case(case):
     r = random.Random(case["seed"])
     out = {"nontrivial": True, "evals": 0, "violations": [], "hist": {}}
     vs = out["violations"]
-    nd = r.randint(1, 3)
+    nd = r.randint(1, 4)
     sh = [r.randint(2, 6)] + [r.randint(1, 4) for _ in range(nd - 1)]
     mag = 10 ** r.uniform(0, 6)
     sc = 10 ** r.uniform(-3, 3)
@@ -47,15 +47,22 @@ def run_case(case):
         lv = [r.uniform(-mag, mag), r.uniform(-mag, mag)]
         vals = np.array([r.choice(lv + [max(lv)]) for _ in range(int(np.prod(sh)))]).reshape(sh)
     out["hist"]["ties_at_max"] = int(0.15 <= u < 0.4)
-    axes_opts = [None] + [tuple(c) for k in range(1, nd) for c in __import__("itertools").combinations(range(1, nd), k)]
+    want_seg = r.random() < 0.6
+    lo_ax = 1 if want_seg else 0       # with segments the leading axis carries them; without, it may be a choice axis too
+    axes_opts = [None] + [tuple(c) for k in range(1, nd - lo_ax + 1) for c in __import__("itertools").combinations(range(lo_ax, nd), k)]
     axes = r.choice(axes_opts)
+    if axes is not None and len(axes) >= 2 and r.random() < 0.5:
+        # prefer subsets with a gap (choice axes separated by a state axis)
+        gaps = [c for c in axes_opts[1:] if len(c) >= 2 and any(b - a > 1 for a, b in zip(c, c[1:]))]
+        if gaps:
+            axes = r.choice(gaps)
     n = sh[0]
     nseg = r.randint(1, min(3, n))
     cuts = sorted(r.sample(range(1, n), nseg - 1)) if nseg > 1 else []
     ids = []
     for s, (lo, hi) in enumerate(zip([0] + cuts, cuts + [n])):
         ids += [s] * (hi - lo)
-    use_seg = r.random() < 0.6 or axes is None
+    use_seg = want_seg or axes is None
     seginfo = {"segment_ids": jnp.asarray(ids), "num_segments": nseg} if use_seg else None
     out["sig"] = f"nd={nd} axes={axes} seg={use_seg} mag=1e{int(math.log10(mag))} scale=1e{int(math.floor(math.log10(sc)))}"
     out["hist"][f"mag=1e{int(math.log10(mag))}"] = 1
